@@ -45,7 +45,8 @@ def baseKeys : List String := ["bozo", "entries", "feed", "headers"]
 /-- api.py:196-240 then `_parse_file_inplace` (api.py:243-377), statement by statement -/
 def httpKeys (s : Stages) : List String :=
   if s.isUrl && !s.transportFails then
-    ["href", "status"] ++ (if s.hasEtag then ["etag"] else []) ++ (if s.hasModified then ["modified", "modified_parsed"] else [])
+    -- `result["modified"] = …` on a FeedParserDict is stored under the alias target `updated` (util.py keymap)
+    ["href", "status"] ++ (if s.hasEtag then ["etag"] else []) ++ (if s.hasModified then ["updated", "updated_parsed"] else [])
   else []
 
 /-- a failed transfer leaves an empty body behind (http.py:60-63) -/
@@ -78,5 +79,35 @@ def parse (s : Stages) : Result :=
     let ran := (if runStrict then [Parser.strict] else []) ++ (if runLoose then [Parser.loose] else []) ++ (if useJson1 then [Parser.json] else [])
     { keys := keys0 ++ ["version", "namespaces"] ++ (if exc2.isSome then ["bozo_exception"] else []),
       bozo := exc2.isSome, exc := exc2, ran := ran, final := ran.getLast? }
+
+end FeedVerif.Api
+
+/-! ### the HTTP glue (http.py:65-78, api.py:224-225, 286-293) -/
+namespace FeedVerif.Api
+
+abbrev Hdrs := List (String × String)
+
+/-- dict assignment; the representation keeps one pair per key, newest first (Python dicts compare and look
+up without regard to order, and the driver prints them sorted) -/
+def dictSet (d : Hdrs) (k v : String) : Hdrs := (k, v) :: d.filter (·.1 != k)
+def dictOfLower (lower : String → String) (items : Hdrs) : Hdrs := items.foldl (fun d p => dictSet d (lower p.1) p.2) []
+def dictUpdate (d : Hdrs) (other : Hdrs) : Hdrs := other.foldl (fun d p => dictSet d p.1 p.2) d
+def dget (d : Hdrs) (k : String) : Option String := (d.find? (·.1 == k)).map (·.2)
+
+/-- `result["headers"]` as the parsers see it: the response's headers lower-cased (http.py:66), then
+the caller's `response_headers` lower-cased on top (api.py:224-225) -/
+def effectiveHeaders (lower : String → String) (resp caller : Hdrs) : Hdrs :=
+  dictUpdate (dictOfLower lower resp) (dictOfLower lower caller)
+
+/-- `result["headers"]` as returned: for EMPTY content `parse` returns before the merge (api.py:219-225) -/
+def resultHeaders (lower : String → String) (empty : Bool) (resp caller : Hdrs) : Hdrs :=
+  if empty then dictOfLower lower resp else effectiveHeaders lower resp caller
+
+/-- base URI choice (api.py:286-293); `safe2` / `safe1` are `make_safe_absolute_uri` with two / one argument -/
+def baseUri (safe2 : String → String → String) (safe1 : String → String) (href contentloc : String) : String :=
+  let a := if href.isEmpty then "" else safe2 href contentloc
+  if !a.isEmpty then a else
+  let b := safe1 contentloc
+  if !b.isEmpty then b else href
 
 end FeedVerif.Api
